@@ -130,6 +130,20 @@ pub fn run(rep: &mut Report, tier: &str, seed: u64) {
             // values of every shape in the printed graph: strings after the first position of a list, nested lists, sets, null
             tsg.push_str("(module) @_lm {\n  node lmn\n  attr (lmn) names = [\"a\", \"b c\", \"d\"], nested = [1, [\"u\", \"v\"]], mixed = [#true, \"x\", #null], aset = {\"p\", \"q\"}, quoted = \"q\\\"t\"\n}\n");
         }
+        if !program.globals.is_empty() {
+            // every string global is also written into the graph as it was supplied: a value that is altered on its way from the
+            // command line (one that contains `=`, an empty one, a non-ASCII one) shows in the output
+            let reads: Vec<String> = program.globals.iter().enumerate().filter(|(_, g)| !g.1).map(|(i, g)| format!("gv{} = {}", i, g.0)).collect();
+            if !reads.is_empty() {
+                tsg.push_str(&format!("(module) @_gm {{\n  node gmn\n  attr (gmn) {}\n}}\n", reads.join(", ")));
+            }
+        }
+        if pi % 5 == 3 && program.globals.is_empty() {
+            // a file with ONE stanza on which the two modes legitimately number the graph nodes differently (a `node` statement
+            // creates its node at once in both modes, a `(node)` call only when its value is needed in lazy mode): `--lazy` must
+            // be honoured whatever the file looks like
+            tsg = "(module) @_m {\n  let a = (node)\n  node b\n  attr (b) k = 1\n  attr (a) j = 2\n}\n".to_string();
+        }
         if pi % 7 == 6 {
             tsg = tsg.replacen("node ", "nodde ", 1); // rejected file
         }
@@ -161,7 +175,8 @@ pub fn run(rep: &mut Report, tier: &str, seed: u64) {
             let mut gargs: Vec<String> = Vec::new();
             for (name, is_list) in &program.globals {
                 if *is_list || r.chance(3, 4) {
-                    gargs.push(format!("{}={}", name, r.pick(&["v", "a=b", "", "caf\u{e9}"])));
+                    let v = *r.pick(&["v", "a=b", "", "caf\u{e9}", "k=v&x=y", "Zm9v=="]);
+                    gargs.push(format!("{}={}", name, if oi == 0 { "a=b" } else { v }));
                 }
             }
             match r.below(10) {
